@@ -12,6 +12,7 @@
 import MdIt.Lemmas.MemoSafeLamTop
 import MdIt.Lemmas.MemoSafeLamBack
 import MdIt.Lemmas.MemoSafeLamLink
+import MdIt.Lemmas.MemoSafeLamImage
 import MdIt.Lemmas.MemoSafeLamNest
 
 namespace MdIt.Inline
@@ -115,5 +116,114 @@ theorem parseInline_total_of_nestHyps (cfg : Cfg) (B : List Char → CodePair.Ca
     ∃ cs, parseInline cfg content mapping = .ok cs :=
   parseInline_total_of_nested (B := B) H.hB (coherent_hsz H.coh) hm hB0
     (fun f s hs => nested_tokEq H f s hs) (fun f => entryP_NF f)
+
+/-- `ParseLinkL2` for the image rule -/
+theorem parseLinkL2Part_image (cfg : Cfg) (B : List Char → CodePair.Cache → Prop) (src : List Char)
+    (Mtop : Nat) : ParseLinkL2Part cfg B src Mtop 1 true := by
+  intro skip0 f0 w w1 r0 s v hq hs hg hiw hwsrc hwmax hwpos hwit hmono hnf hlt hlk hv hhead hnone hsome n
+  have hh : ∃ rest, slice src s.pos Mtop = .ok ('!' :: '[' :: rest) := by
+    rcases hhead with ⟨h, _, _⟩ | ⟨_, _, h⟩
+    · cases h
+    · exact h
+  exact parseLinkL2_image skip0 f0 w w1 r0 s v hq hs hg hiw hwsrc hwmax hwpos hwit hmono hnf hlt hlk hv
+    hh hnone hsome n
+
+/-- the hypotheses of the nested induction, for a coherent chain without the code-span rule (link and
+    image rules at most once each) -/
+theorem nestHyps_nocode (cfg : Cfg) (src : List Char) (Mtop : Nat) (hc : ChainCoherent cfg = true)
+    (hnb : RuleId.backticks ∉ cfg.chain)
+    (hone : cfg.chain.count .link ≤ 1 ∧ cfg.chain.count .image ≤ 1) :
+    NestHyps cfg (fun _ _ => True) src Mtop :=
+  { coh := hc
+    hB := backOK_true
+    flat := flatL2_holds cfg
+    back := fun h => absurd h hnb
+    keep := realKeeps_holds cfg
+    emph := emphL2_holds cfg
+    plLink := fun _ => parseLinkL2Part_link cfg _ src Mtop
+    plImage := fun _ => parseLinkL2Part_image cfg _ src Mtop
+    one := hone }
+
+/-- **`md.inline.parse` is total** for every `ChainCoherent` chain without the code-span rule — links AND
+    images (each rule at most once), any emphasis-like rules, text, newline, escape, autolink, entity —
+    every `max_nesting`, every reference map, every content with a `MapOK` table. -/
+theorem parseInline_total_nocode (cfg : Cfg) (hc : ChainCoherent cfg = true)
+    (hnb : RuleId.backticks ∉ cfg.chain)
+    (hone : cfg.chain.count .link ≤ 1 ∧ cfg.chain.count .image ≤ 1) {content : List Char}
+    {mapping : Srcmap} (hm : MapOK content mapping) : ∃ cs, parseInline cfg content mapping = .ok cs :=
+  parseInline_total_of_nestHyps cfg (fun _ _ => True) hm trivial
+    (nestHyps_nocode cfg content _ hc hnb hone)
+
+/-! ## code spans, for contents without two adjacent backticks -/
+
+/-- no two adjacent backticks in the text -/
+def NoDoubleTick (src : List Char) : Prop := ¬ ['`', '`'] <:+: src
+
+instance (src : List Char) : Decidable (NoDoubleTick src) := by unfold NoDoubleTick; infer_instance
+
+theorem NoDoubleTick.charAt {src : List Char} (h : NoDoubleTick src) (q : Nat) :
+    ¬ (0 < q ∧ CodePair.charAt src (q - 1) = some '`' ∧ CodePair.charAt src q = some '`') := by
+  rintro ⟨hq, h1, h2⟩
+  apply h
+  unfold CodePair.charAt at h1 h2
+  cases hd : CodePair.dropB src (q - 1) with
+  | none => rw [hd] at h1; simp at h1
+  | some t =>
+    rw [hd] at h1
+    simp only [Option.bind_some] at h1
+    cases t with
+    | nil => simp at h1
+    | cons c t' =>
+      simp only [List.head?_cons, Option.some.injEq] at h1
+      subst h1
+      obtain ⟨a, ha, hl⟩ := CodePair.dropB_some hd
+      have e1 : ('`' : Char).utf8Size = 1 := by decide
+      have hq2 : CodePair.dropB src q = some t' := by
+        have := CodePair.dropB_append_add (a ++ ['`']) t' 0
+        rw [CodePair.byteLen_append] at this
+        simp only [CodePair.byteLen, e1, Nat.add_zero, CodePair.dropB_zero] at this
+        rw [ha, show q = CodePair.byteLen a + (1 + 0) by omega]
+        simpa using this
+      rw [hq2] at h2
+      simp only [Option.bind_some] at h2
+      cases t' with
+      | nil => simp at h2
+      | cons c2 t'' =>
+        simp only [List.head?_cons, Option.some.injEq] at h2
+        subst h2
+        exact ⟨a, t'', by rw [ha]; simp⟩
+
+/-- the code-span comparison, for texts without two adjacent backticks: no position is strictly inside
+    a backtick run, so the two caches agree on `inside_failed` everywhere -/
+theorem backL2_of_noDouble (cfg : Cfg) {src : List Char} (Mtop : Nat) (hnd : NoDoubleTick src) :
+    BackL2 cfg BInv src Mtop := by
+  intro skip tok skip' tok' fuel fuel' st0 s h hs0 hm0 hsrc hpos hb0 hb1
+  refine back_L2_runRule h hsrc hpos hb0 hb1 (by rw [hs0, hm0]; exact hnd.charAt Mtop) ?_
+  rw [hpos]
+  rw [hsrc] at hb1
+  exact inside_agree_of_not_interior hb0 hb1 (by rw [hs0]; exact hnd.charAt st0.pos)
+
+theorem nestHyps_nodouble (cfg : Cfg) (src : List Char) (Mtop : Nat) (hc : ChainCoherent cfg = true)
+    (hone : cfg.chain.count .link ≤ 1 ∧ cfg.chain.count .image ≤ 1) (hnd : NoDoubleTick src) :
+    NestHyps cfg BInv src Mtop :=
+  { coh := hc
+    hB := backOK_BInv
+    flat := flatL2_holds cfg
+    back := fun _ => backL2_of_noDouble cfg Mtop hnd
+    keep := realKeeps_holds cfg
+    emph := emphL2_holds cfg
+    plLink := fun _ => parseLinkL2Part_link cfg _ src Mtop
+    plImage := fun _ => parseLinkL2Part_image cfg _ src Mtop
+    one := hone }
+
+/-- **`md.inline.parse` is total for EVERY `ChainCoherent` chain — the stock CommonMark chain with
+    strikethrough included — on contents without two adjacent backticks** (single-backtick code spans
+    only), every `max_nesting`, every reference map, every `MapOK` table. -/
+theorem parseInline_total_nodouble (cfg : Cfg) (hc : ChainCoherent cfg = true)
+    (hone : cfg.chain.count .link ≤ 1 ∧ cfg.chain.count .image ≤ 1) {content : List Char}
+    {mapping : Srcmap} (hm : MapOK content mapping) (hnd : NoDoubleTick content) :
+    ∃ cs, parseInline cfg content mapping = .ok cs :=
+  parseInline_total_of_nestHyps cfg BInv hm (BInv.empty content)
+    (nestHyps_nodouble cfg content _ hc hone hnd)
 
 end MdIt.Inline
